@@ -8,6 +8,7 @@ import json
 import gtirb_from_repo
 import world
 import worldgen
+from common import exc_name
 
 LEVEL = "proof"
 TRUSTED = ("dict semantics of the per-IR table are CPython's; UUIDs in one history are pairwise distinct (the property's premise)",)
@@ -176,8 +177,53 @@ def any_block_scenario(ctx, g, rng, rounds):
         ctx.case("any-block:%d:%s" % (rd, steps), True)
 
 
+def accepted_files_have_exact_table(ctx, g, rng, n):
+    """'... and for IRs produced by loading a file': whatever file load ACCEPTS.  Messages in which one node carries the UUID of another
+    (an ancestor, a sibling, a node of another module) are handed to the loader; refusing them is the loader's business (C17), but an
+    IR that comes back must have an exact UUID table: every node reachable through containment is found under its UUID, and under no
+    UUID a node that is not reachable."""
+    import content
+    import faults
+    import irgen
+    import protocheck
+    enums = protocheck.schema_enums()
+    cov = irgen.Cov(ctx)
+    hdr = bytes(list(b"GTIRB\0\0") + [g.version.PROTOBUF_VERSION])
+    for i in range(n):
+        m = irgen.gen_message(rng, enums, cov, version=g.version.PROTOBUF_VERSION)
+        if not m[1]:
+            continue
+        for sig, fm, want in faults.structural_faults(m, rng, enums):
+            if not sig.startswith("dup-"):
+                continue
+            try:
+                bs = hdr + content.sx_to_msg(fm).SerializeToString()
+            except Exception:  # noqa: BLE001
+                continue
+            ctx.case("dupfile:" + sig + repr(fm), True)
+            try:
+                ir = protocheck.load_bytes(g, bs)
+            except BaseException as e:  # noqa: BLE001
+                if isinstance(e, (KeyboardInterrupt, SystemExit)):
+                    raise
+                ctx.count("duplicate_uuid_file:refused")
+                continue
+            ctx.count("duplicate_uuid_file:accepted")
+            try:
+                nodes = content.reach(ir)
+                for nd in nodes:
+                    got = ir.get_by_uuid(nd.uuid)
+                    if got is not nd:
+                        ctx.add("oracle", "loaded-table-inexact", "load accepted a file (%s) and returned an IR in which get_by_uuid(uuid of the attached %s) gives %s"
+                                % (sig.split("=")[0], type(nd).__name__, "None" if got is None else "another node, a " + type(got).__name__), {"tag": sig, "file": bs.hex()})
+                        break
+            except Exception as e:  # noqa: BLE001
+                ctx.add("oracle", "loaded-table-inexact", "load accepted a file (%s) whose IR cannot be walked: %s" % (sig, exc_name(g, e)), {"tag": sig, "file": bs.hex()})
+
+
 def run(ctx):
     g = gtirb_from_repo.load()
+    accepted_files_have_exact_table(ctx, g, ctx.rng, 10 if ctx.quick else 200)
     any_block_scenario(ctx, g, ctx.rng, 30 if ctx.quick else 600)
     nh, ln = (60, 30) if ctx.quick else (1200, 60)
     hists = []
